@@ -111,6 +111,9 @@ pub struct Inv {
     pub plan: Plan,
     pub fault_seed: u64,
     pub recover: bool,
+    /// see c19gen::Inv::iocap
+    #[serde(default)]
+    pub iocap: u32,
 }
 
 #[derive(Serialize, Deserialize, Clone, Debug, PartialEq, Eq)]
@@ -226,7 +229,8 @@ pub fn gen_project(d: &Data, r: &mut Rng, bad: Option<&str>) -> Project {
     // rule files
     let nfiles = r.range(1, 3);
     // stems that differ only by their directory are different files
-    let mut stems = vec!["global", "rules/early", "late", "rules/shared-1", "early", "rules/late"];
+    // ... and a rule file may be shared from outside the project directory
+    let mut stems = vec!["global", "rules/early", "late", "rules/shared-1", "early", "rules/late", "../global", "../shared/early"];
     r.shuffle(&mut stems);
     let mut rule_files = BTreeMap::new();
     let mut stem_list: Vec<String> = Vec::new();
@@ -353,7 +357,7 @@ pub fn render_files(p: &Project, r: &mut Rng) -> (BTreeMap<String, String>, Vec<
     let conf_name = *r.pick(&["config.asca", "project.asca", "fam.asca"]);
     files.insert(format!("{PROJ}/{conf_name}"), render_config(p, r));
     for (stem, groups) in &p.rule_files {
-        files.insert(format!("{PROJ}/{stem}.rsca"), c19gen::render_rsca(groups, &fmt, r));
+        files.insert(crate::cli::resolve(PROJ, &format!("{stem}.rsca")), c19gen::render_rsca(groups, &fmt, r));
     }
     for (stem, words) in &p.word_files {
         files.insert(crate::cli::resolve(PROJ, &format!("{stem}.wsca")), c19gen::render_wsca(words, &fmt, r));
@@ -423,6 +427,7 @@ pub fn gen_scn(d: &Data, r: &mut Rng, faulty: bool, bad: Option<&str>) -> Scn {
                 _ => FaultClass::Crash,
             }
         };
+        let fault_seed = r.next_u64();
         invs.push(Inv {
             cmd,
             cwd,
@@ -431,8 +436,9 @@ pub fn gen_scn(d: &Data, r: &mut Rng, faulty: bool, bad: Option<&str>) -> Scn {
             dirseed: if faulty || r.chance(1, 2) { r.next_u64() | 1 } else { 0 },
             class,
             plan: vec![],
-            fault_seed: r.next_u64(),
+            fault_seed,
             recover: matches!(class, FaultClass::Hard | FaultClass::Crash) && r.chance(1, 2),
+            iocap: crate::cli::cap_from(fault_seed),
         });
     }
     if bad.is_none() && invs.len() >= 2 && r.chance(1, 3) {
@@ -449,7 +455,7 @@ pub fn gen_scn(d: &Data, r: &mut Rng, faulty: bool, bad: Option<&str>) -> Scn {
                     g.rule = (0..nr).map(|_| c19gen::safe_rule(d, r, false)).collect();
                 }
             }
-            Cmd::Edit { path: format!("{PROJ}/{stem}.rsca"), text: c19gen::render_rsca(&groups, &fmt, r), rules: Some((stem, groups)), words: None }
+            Cmd::Edit { path: crate::cli::resolve(PROJ, &format!("{stem}.rsca")), text: c19gen::render_rsca(&groups, &fmt, r), rules: Some((stem, groups)), words: None }
         } else {
             let stems: Vec<String> = project.word_files.keys().cloned().collect();
             let stem = r.pick(&stems).clone();
@@ -470,7 +476,7 @@ pub fn gen_scn(d: &Data, r: &mut Rng, faulty: bool, bad: Option<&str>) -> Scn {
             };
             Cmd::Edit { path: crate::cli::resolve(PROJ, &format!("{stem}.wsca")), text: c19gen::render_wsca(&words, &fmt, r), rules: None, words: Some((stem, words)) }
         };
-        invs.insert(at, Inv { cmd, cwd: PROJ.to_string(), answer: "y".into(), detrand: 1, dirseed: 0, class: FaultClass::None, plan: vec![], fault_seed: 0, recover: false });
+        invs.insert(at, Inv { cmd, cwd: PROJ.to_string(), answer: "y".into(), detrand: 1, dirseed: 0, class: FaultClass::None, plan: vec![], fault_seed: 0, recover: false, iocap: 0 });
     }
     if faulty && bad.is_none() {
         // the final-state invariant: whatever happened before, one fault-free `seq -o -y` puts things right
@@ -484,6 +490,7 @@ pub fn gen_scn(d: &Data, r: &mut Rng, faulty: bool, bad: Option<&str>) -> Scn {
             plan: vec![],
             fault_seed: 0,
             recover: false,
+            iocap: 0,
         });
     }
     Scn { project, files, dirs, invs, directed: None }
